@@ -807,6 +807,144 @@ func runES(sum *vhlib.Summary, evs []levent, cases *[]string) {
 	}
 }
 
+// ---------- ES bulk through aliases and jaeger-* indices ----------
+// The time key of a bulk document is decided by the REAL index (alias resolved): "startTimeMillis" for
+// an index whose name starts with "jaeger-", the configured timestamp key otherwise (seed C16d).
+func runESRoutes(sum *vhlib.Summary, r *vhlib.Rng, cases *[]string) {
+	type route struct{ name, real string }
+	routes := []route{
+		{"c16rplain", "c16rplain"},
+		{"jaeger-c16rsp", "jaeger-c16rsp"},
+		{"c16rspans-write", "jaeger-c16rsp2"}, // plain-looking alias of a jaeger index
+		{"jaeger-c16ralias", "c16rplain2"},    // jaeger-looking alias of a plain index
+	}
+	var al []string
+	for _, rt := range routes {
+		if rt.name != rt.real {
+			real := rt.real
+			if err := vtable.AddVirtualTable(&real, 0); err != nil {
+				sum.HarnessError("routes: AddVirtualTable: " + err.Error())
+				return
+			}
+			if err := vtable.AddAliases(rt.real, []string{rt.name}, 0); err != nil {
+				sum.HarnessError("routes: AddAliases: " + err.Error())
+				return
+			}
+			al = append(al, fmt.Sprintf("(%s, %s)", coqS(rt.name), coqS(rt.real)))
+		}
+	}
+	alCoq := "[" + strings.Join(al, "; ") + "]"
+	type rev struct {
+		cid          string
+		ts, jt       uint64 // 0 = key absent
+		rt           route
+		win          window
+	}
+	var evs []rev
+	n := 0
+	for _, rt := range routes {
+		for k := 0; k < 6; k++ {
+			e := rev{cid: fmt.Sprintf("rt%d", n), rt: rt}
+			n++
+			base := uint64(1600000000000) + uint64(r.Intn(90000000))*1000
+			switch k % 4 {
+			case 0:
+				e.ts, e.jt = base, base+777000
+			case 1:
+				e.ts = base
+			case 2:
+				e.jt = base
+			}
+			evs = append(evs, e)
+		}
+	}
+	// one bulk body per route, and one body mixing all routes
+	send := func(idx []int) {
+		var sb strings.Builder
+		for _, i := range idx {
+			e := evs[i]
+			doc := `{"cid":"` + e.cid + `","message":"m ` + e.cid + `"`
+			if e.ts != 0 {
+				doc += fmt.Sprintf(`,"timestamp":%d`, e.ts)
+			}
+			if e.jt != 0 {
+				doc += fmt.Sprintf(`,"startTimeMillis":%d`, e.jt)
+			}
+			doc += "}"
+			sb.WriteString(`{"index":{"_index":"` + e.rt.name + `"}}` + "\n" + doc + "\n")
+		}
+		lo := nowMs() - 1
+		nn, resp, err := eswriter.HandleBulkBody([]byte(sb.String()), nil, 0, 0, false)
+		hi := nowMs() + 1
+		if err != nil || nn != len(idx) || resp["errors"] != false {
+			sum.HarnessError(fmt.Sprintf("es routes bulk: n=%d err=%v errors=%v", nn, err, resp["errors"]))
+		}
+		for _, i := range idx {
+			evs[i].win = window{lo, hi}
+		}
+	}
+	var mixed []int
+	for ri := range routes {
+		var own []int
+		for i := range evs {
+			if evs[i].rt == routes[ri] {
+				if i%2 == 0 {
+					own = append(own, i)
+				} else {
+					mixed = append(mixed, i)
+				}
+			}
+		}
+		send(own)
+	}
+	send(mixed)
+	flushLogs()
+	for _, rt := range routes {
+		obs, err := search(rt.real)
+		if err != nil {
+			sum.HarnessError("es routes search: " + err.Error())
+			return
+		}
+		byCid := indexBy(obs, "cid")
+		for _, e := range evs {
+			if e.rt != rt {
+				continue
+			}
+			o := pickObs(byCid, e.cid, e.win)
+			jaeger := strings.HasPrefix(rt.real, "jaeger-")
+			ex := expect{cols: map[string]sv{"cid": {Kind: "s", S: e.cid}, "message": {Kind: "s", S: "m " + e.cid}}, exact: false,
+				timeKnown: "es_route_time_replaced_by_arrival_time"}
+			carried, other := e.ts, e.jt
+			if jaeger {
+				carried, other = e.jt, e.ts
+			}
+			ex.carried = carried
+			if other != 0 && other != carried {
+				ex.altTime, ex.altClass = other, "es_route_time_read_from_wrong_key"
+			}
+			kind := "plain"
+			if jaeger {
+				kind = "jaeger"
+			}
+			if rt.name != rt.real {
+				kind += "_via_alias"
+			}
+			sum.Count("es_routes/" + kind)
+			sum.Eval("esr/"+e.cid, true)
+			checkStored(sum, "es", e.cid, ex, o, func(string) string { return "" }, map[string]interface{}{"protocol": "es_bulk_route", "requested": rt.name, "real_index": rt.real, "timestamp": e.ts, "startTimeMillis": e.jt})
+			tw := "WNone"
+			if e.ts != 0 {
+				tw = fmt.Sprintf("(WNum %d)", e.ts)
+			}
+			attrs := []kv{{"cid", sv{Kind: "s", S: e.cid}}, {"message", sv{Kind: "s", S: "m " + e.cid}}}
+			if e.jt != 0 {
+				attrs = append(attrs, kv{"startTimeMillis", sv{Kind: "i", I: int64(e.jt)}})
+			}
+			*cases = append(*cases, fmt.Sprintf("(LEsVia %s %s %s, %s, %s)", alCoq, tw, coqEvent(attrs), coqS(rt.name), o.coq()))
+		}
+	}
+}
+
 // ---------- Splunk HEC ----------
 func runHEC(sum *vhlib.Summary, evs []levent, cases *[]string) {
 	const ix = "c16hec"
@@ -2070,6 +2208,7 @@ func main() {
 	nEvs := spellingEvents(r.Fork(), nN)
 	esEvs := append(append(append([]levent{}, evs...), nEvs...), boundaryEvents()...)
 	runES(sum, esEvs, &logCases)
+	runESRoutes(sum, r.Fork(), &logCases)
 	runHEC(sum, append(append([]levent{}, evs...), nEvs...), &logCases)
 	writeSharded(cfg, sum, "cases_logs", "list (lcase * list N * lobs)", "check_logs cases", logCases, 120)
 	runOTLPLogs(sum, r.Fork(), evs, &logReqCases)
